@@ -14,7 +14,7 @@ Anything that cannot be decided raises Unknown; the calling rule turns that into
 into a silent pass."""
 from __future__ import annotations
 
-from .symeval import is_const
+from .symeval import is_const, subterms as _subterms
 
 
 class Unknown(Exception):
@@ -47,6 +47,12 @@ class Opq:
         raise Unknown(f"truth value of {self!r}")
 
 
+class Some(Opq):
+    """Opaque value known to be truthy and not None (an object such as a registered rule)."""
+    def __bool__(self):
+        return True
+
+
 class Atom(Opq):
     """Opaque value known not to be a container: isinstance(x, (list, tuple, dict)) is False."""
     pass
@@ -62,6 +68,8 @@ class Raised:
 
 
 def truth(v):
+    if isinstance(v, Some):
+        return True
     if isinstance(v, Opq):
         raise Unknown(f"truth value of {v!r}")
     if isinstance(v, Raised):
@@ -76,16 +84,90 @@ class Model:
     """env: {term: python value}.  Terms are looked up before they are evaluated, so any sub-term (a parameter, an
     attribute chain, a call such as `eqn.primitive.get_bind_params(eqn.params)[1]`) can be given a concrete shape."""
 
-    def __init__(self, env=None, funcs=None):
+    def __init__(self, env=None, funcs=None, evaluator=None):
         self.env = dict(env or {})
         self.funcs = dict(funcs or {})   # dotted name -> python callable on evaluated args (model of a repo helper)
         self.memo = {}
+        self.evaluator = evaluator       # symbolic evaluator, needed only to apply local closures to model values
+        self._fresh = 0
+
+    # ------------------------------------------------------------------ closures and callables on model values
+    def apply_value(self, f, args, kwargs=None):
+        """Apply a model value that denotes a callable (local closure, modelled function, partial) to model values."""
+        kwargs = kwargs or {}
+        if callable(f) and not isinstance(f, Opq):
+            return f(*args, **kwargs)
+        if isinstance(f, Opq) and f.parts[:1] == ("closure",) and self.evaluator is not None:
+            ph = []
+            for a in args:
+                self._fresh += 1
+                t = ("param", f"__arg{self._fresh}")
+                self.env[t] = a
+                ph.append(t)
+            kw = []
+            for k, v in kwargs.items():
+                self._fresh += 1
+                t = ("param", f"__kw{self._fresh}")
+                self.env[t] = v
+                kw.append((k, t))
+            self.memo.clear()
+            r = self.evaluator.apply_closure(("closure", f.parts[1]), tuple(ph), tuple(kw))
+            if r is None:
+                raise Unknown("recursive closure")
+            return self.ev(r)
+        if isinstance(f, Opq) and f.parts[:1] == ("name",) and f.parts[1] in self.funcs:
+            return self.funcs[f.parts[1]](*args, **kwargs)
+        if isinstance(f, Opq) and f.parts[:1] == ("partial",):
+            return self.apply_value(f.parts[1], list(f.parts[2]) + list(args), kwargs)
+        return Opq("call", f, tuple(args), tuple(sorted(kwargs.items(), key=lambda kv: kv[0])))
+
+    # ------------------------------------------------------------------ pytrees of model values
+    def children(self, v, is_leaf=None):
+        """None if v is a leaf, else (list of children, rebuild function)."""
+        if is_leaf is not None and truth(self.apply_value(is_leaf, [v])):
+            return None
+        if isinstance(v, list):
+            return list(v), lambda xs: list(xs)
+        if isinstance(v, tuple):
+            return list(v), lambda xs: tuple(xs)
+        if isinstance(v, dict):
+            ks = sorted(v, key=repr)
+            return [v[k] for k in ks], lambda xs: dict(zip(ks, xs))
+        if v is None:
+            return [], lambda xs: None
+        if hasattr(v, "tree_children"):
+            return v.tree_children()
+        return None
+
+    def tree_flatten(self, v, is_leaf=None):
+        ch = self.children(v, is_leaf)
+        if ch is None:
+            return [v]
+        out = []
+        for c in ch[0]:
+            out.extend(self.tree_flatten(c, is_leaf))
+        return out
+
+    def tree_map(self, f, trees, is_leaf=None):
+        ch = self.children(trees[0], is_leaf)
+        if ch is None:
+            return f(*trees)
+        kids, rebuild = ch
+        others = []
+        for t in trees[1:]:
+            c2 = self.children(t, None)
+            if c2 is None or len(c2[0]) != len(kids):
+                raise Unknown("tree_map over trees of different structure")
+            others.append(c2[0])
+        return rebuild([self.tree_map(f, [kids[i]] + [o[i] for o in others], is_leaf) for i in range(len(kids))])
 
     def bind(self, t, v):
         self.env[t] = v
         self.memo.clear()
 
     def ev(self, t):
+        if t[0] == "const":
+            return t[1]   # never through the memo: ('const', 0) == ('const', False) in Python
         try:
             if t in self.env:
                 return self.env[t]
@@ -164,6 +246,8 @@ class Model:
             return self.binop(t[1], a, b)
         if h == "attr":
             base = self.ev(t[1])
+            if hasattr(base, "model_attrs") and t[2] in base.model_attrs:
+                return base.model_attrs[t[2]]
             return Opq("attr", base, t[2])
         if h == "rest":
             base = self.ev(t[1])
@@ -197,14 +281,76 @@ class Model:
             return Opq("partial", self.ev(t[1]), tuple(self.ev(x) for x in t[2]))
         if h == "stack":
             return stacked(self.ev(t[2]))
+        if h == "treemap":
+            return self.treemap(t)
+        if h == "comp":
+            return self.comp(t)
         # summaries (scan/lanes/loopres/…) are opaque but structural
         return Opq("term", t)
+
+    def treemap(self, t):
+        tid, body = t[1], t[2]
+        rec = self.evaluator.treemaps.get(tid) if self.evaluator is not None else None
+        if rec is None:
+            raise Unknown("tree_map summary without its record")
+        leafterms = list(dict.fromkeys(x for x in _subterms(body) if x[0] == "leaf" and x[1] == tid))
+        trees = [self.ev(x[2]) for x in leafterms]
+        if not trees:
+            # the mapped function ignores its leaves: the structure comes from the first mapped tree
+            trees = [self.ev(rec["trees"][0])]
+        il = None
+        for k, v in rec.get("kwargs") or ():
+            if k == "is_leaf":
+                il = self.ev(v)
+
+        def f(*leaves):
+            for lt, lv in zip(leafterms, leaves):
+                self.env[lt] = lv
+            self.memo.clear()
+            return self.ev(body)
+        try:
+            return self.tree_map(f, trees, il)
+        finally:
+            for lt in leafterms:
+                self.env.pop(lt, None)
+            self.memo.clear()
+
+    def comp(self, t):
+        kind, vals, gens = t[1], t[2], t[3]
+        out = []
+
+        def rec(i):
+            if i == len(gens):
+                self.memo.clear()
+                out.append(tuple(self.ev(v) for v in vals))
+                return
+            lid, it, conds = gens[i]
+            seq = self.ev(it)
+            if isinstance(seq, dict):
+                seq = list(seq)
+            if not isinstance(seq, (list, tuple)):
+                raise Unknown(f"comprehension over {seq!r}")
+            key = ("iter", lid, it)
+            for x in seq:
+                self.env[key] = x
+                self.memo.clear()
+                if all(self.truth(c) for c in conds):
+                    rec(i + 1)
+            self.env.pop(key, None)
+            self.memo.clear()
+        rec(0)
+        if kind == "dict":
+            return {k: v for k, v in out}
+        seq = [x[0] for x in out]
+        return seq if kind in ("list", "gen") else (set(seq) if kind == "set" else seq)
 
     def cmp(self, op, a, b):
         if isinstance(a, Raised) or isinstance(b, Raised):
             raise Unknown("comparison with a raise")
         if op in ("is", "is not"):
             if a is None or b is None or isinstance(a, bool) or isinstance(b, bool):
+                if isinstance(a, (Some, Atom)) or isinstance(b, (Some, Atom)):
+                    return op == "is not"
                 if isinstance(a, Opq) or isinstance(b, Opq):
                     raise Unknown(f"identity test on {a!r}, {b!r}")
                 r = a is b
@@ -268,10 +414,30 @@ class Model:
                 kwargs[k] = self.ev(v)
         return args, kwargs
 
+    def dotted_of(self, fn):
+        parts = []
+        while fn[0] == "attr":
+            parts.append(fn[2])
+            fn = fn[1]
+        if fn[0] == "name":
+            return ".".join([fn[1]] + parts[::-1])
+        return None
+
     def call(self, t):
         fn = t[1]
+        try:
+            bound = self.env.get(fn)
+        except TypeError:
+            bound = None
+        if bound is not None and (callable(bound) or isinstance(bound, Opq)):
+            args, kwargs = self.args_of(t)
+            return self.apply_value(bound, args, kwargs)
         # method calls on modelled containers
         if fn[0] == "attr":
+            d = self.dotted_of(fn)
+            if d is not None and d in self.funcs:
+                args, kwargs = self.args_of(t)
+                return self.funcs[d](*args, **kwargs)
             base = self.ev(fn[1])
             if isinstance(base, dict) and fn[2] in ("get", "items", "keys", "values"):
                 args, kwargs = self.args_of(t)
@@ -309,27 +475,55 @@ class Model:
                 if b == "isinstance":
                     classes = args[1] if isinstance(args[1], tuple) else (args[1],)
                     names = {c.parts[1].split(".")[-1] for c in classes if isinstance(c, Opq) and c.parts and c.parts[0] == "name"}
-                    if isinstance(a0, Atom) and names and names <= {"tuple", "list", "dict"}:
-                        return False
+                    if hasattr(a0, "model_class"):
+                        return a0.model_class in names
+                    if isinstance(a0, Atom):
+                        return False   # an atom is an opaque array-like leaf: no container, no repository class
                     if isinstance(a0, Opq):
                         raise Unknown(f"isinstance of {a0!r}")
                     py = {"tuple": tuple, "list": list, "dict": dict, "int": int, "str": str, "bool": bool, "float": float}
                     if not names <= set(py):
-                        raise Unknown(f"isinstance against {names}")
+                        if names & set(py):
+                            raise Unknown(f"isinstance against {names}")
+                        return False   # a concrete model container/scalar is not an instance of a repository class
                     return isinstance(a0, tuple(py[n] for n in names))
                 if b in ("any", "all") and isinstance(a0, (list, tuple)):
                     return (any if b == "any" else all)(truth(x) for x in a0)
                 if b == "range" and all(isinstance(x, int) for x in args):
                     return tuple(range(*args))
+                if b == "reversed" and isinstance(a0, (list, tuple)):
+                    return list(reversed(a0))
+                if b == "enumerate" and isinstance(a0, (list, tuple)):
+                    return [(i, x) for i, x in enumerate(a0)]
+                if b == "zip" and all(isinstance(x, (list, tuple)) for x in args):
+                    return [tuple(x) for x in zip(*args)]
+                if b == "map" and all(isinstance(x, (list, tuple)) for x in args[1:]):
+                    return [self.apply_value(a0, list(xs)) for xs in zip(*args[1:])]
                 if b == "dict" and not args:
                     return dict(kwargs)
                 if b in ("ValueError", "TypeError", "KeyError", "RuntimeError", "NotImplementedError", "Exception", "AssertionError"):
                     return Opq("exc", b)
+            if nm == "itertools.chain":
+                args, kwargs = self.args_of(t)
+                out = []
+                for a in args:
+                    if not isinstance(a, (list, tuple)):
+                        raise Unknown(f"chain over {a!r}")
+                    out.extend(a)
+                return out
+            if nm == "functools.partial":
+                args, kwargs = self.args_of(t)
+                if not kwargs:
+                    return Opq("partial", args[0], tuple(args[1:]))
         try:
             args, kwargs = self.args_of(t)
         except Unknown:
             return Opq("term", t)
         f = self.ev(fn)
+        if callable(f) and not isinstance(f, Opq):
+            return f(*args, **kwargs)
+        if isinstance(f, Opq) and f.parts[:1] in (("closure",), ("partial",)) and (self.evaluator is not None or f.parts[:1] == ("partial",)):
+            return self.apply_value(f, args, kwargs)
         try:
             return Opq("call", f, tuple(args), tuple(sorted(kwargs.items(), key=lambda kv: kv[0])))
         except TypeError:
